@@ -5,7 +5,7 @@ from ..model import AnalysisError, own_nodes, norm_src
 from ..peval import DictV, TokenV, is_const
 from ..report import RuleResult
 from ..effects import Exceptions, ExcClass
-from ..util import key_of, src, call_name
+from ..util import key_of, src, call_name, assign_pairs
 from ..registry import FUNCS_REL
 from .c11 import builder_tolerated, rule_table
 
@@ -192,6 +192,48 @@ def rule_ref(ctx):
     return rr
 
 
+def rule_lookup(ctx):
+    rr = RuleResult('C14', 'C14.lookup', 'TAB',
+                    'function/operator tables are indexed by the whole '
+                    'upper-cased token name', floor=2)
+    p = ctx.project
+    for rel, q, table in (('formulas/tokens/function.py', 'Function.compile',
+                           'get_functions()'),
+                          ('formulas/tokens/operator.py', 'Operator.compile',
+                           'OPERATORS')):
+        f = p.func(rel, q)
+        rr.instances += 1
+        subs = [n for n in own_nodes(f) if isinstance(n, ast.Subscript)
+                and norm_src(n.value).endswith(table)]
+        if not subs:
+            # the table may be bound to a local first
+            loc = [t.id for t, v, _ in assign_pairs(f) if isinstance(t, ast.Name)
+                   and norm_src(v).endswith(table)]
+            subs = [n for n in own_nodes(f) if isinstance(n, ast.Subscript)
+                    and isinstance(n.value, ast.Name) and n.value.id in loc]
+        if not subs:
+            raise AnalysisError('%s: table lookup not found' % q)
+        key = subs[0].slice
+        want = '%s.name.upper()' % f.params[0]
+        ok = norm_src(key) == want
+        if not ok and isinstance(key, ast.Name):
+            asg = [(t, v, n) for t, v, n in assign_pairs(f)
+                   if isinstance(t, ast.Name) and t.id == key.id]
+            ok = len(asg) == 1 and isinstance(asg[0][2], ast.Assign) and \
+                norm_src(asg[0][1]) == want
+        if ok:
+            rr.ok('%s indexes %s with %s' % (q, table, want),
+                  '%s:%d' % (rel, subs[0].lineno))
+        else:
+            rr.fail(key_of(f, 'table key is not the whole token name'),
+                    '%s looks the token up under `%s` (possibly rewritten '
+                    'before the lookup) instead of the whole upper-cased name: '
+                    'an unknown name can resolve to a different, implemented '
+                    'function instead of #NAME?' % (q, norm_src(key)),
+                    file=rel, function=q, line=subs[0].lineno)
+    return rr
+
+
 def rule_plain(ctx):
     rr = RuleResult('C14', 'C14.plain', 'TAB',
                     'error table holds XlError singletons for the seven codes',
@@ -227,4 +269,5 @@ def run(ctx):
         f.prop, f.rule = 'C14', 'C14.table'
     for o in t.obligations:
         o.rule = 'C14.table'
-    return [rule_name(ctx), t, rule_ref(ctx), rule_plain(ctx)]
+    return [rule_name(ctx), t, rule_lookup(ctx), rule_ref(ctx),
+            rule_plain(ctx)]
